@@ -496,6 +496,17 @@ def s2_subscripts(chk: Check, proj: Project) -> None:
         base = norm(sub.value).rsplit(".meta", 1)[0]
         okk = any(pol and t == f"{base}.type == 'dict'" for t, pol in atoms) or any((not pol) and t == f"{base}.type != 'dict'" for t, pol in atoms)
         chk.ob("S2b", f"util.tag_parser:parse_tag:{short(enclosing_stmt(sub), 60)}", m.loc(sub), okk, f"`{norm(sub)}` is read only where {base}.type == 'dict'" if okk else f"`{norm(sub)}` can be read for a non-dict container: KeyError instead of TemplateSyntaxError")
+    # the same for the helper that inspects every compiled value: a constant index into the value needs a non-empty / length fact
+    em, ef = proj.func("expression", "is_dynamic_expression")
+    chk.analysed(fkey(em, ef))
+    for sub in [x for x in ast.walk(ef) if isinstance(x, ast.Subscript) and isinstance(x.ctx, ast.Load) and isinstance(x.value, ast.Name) and not isinstance(x.slice, ast.Slice) and (isinstance(x.slice, ast.Constant) or (isinstance(x.slice, ast.UnaryOp) and isinstance(x.slice.operand, ast.Constant)))]:
+        n += 1
+        v_ = x_v = sub.value.id
+        srcs = {v_} | {y.id for _s, val in assignments(ef, v_) if val is not None for y in ast.walk(val) if isinstance(y, ast.Name)}
+        okk = any(((t.startswith("len(") and any(t.startswith(f"len({s_})") for s_ in srcs) and "<" in t and not pol) or (t in {f"not {s_}" for s_ in srcs} and not pol) or (t in srcs and pol)) for t, pol in cond_atoms(sub))
+        chk.ob("S2b", f"expression:is_dynamic_expression:{norm(sub)}", em.loc(sub), okk,
+               f"`{norm(sub)}` is read only for a value known to be non-empty / long enough" if okk else
+               f"`{norm(sub)}` is read without a non-empty / length fact for `{x_v}` (conditions: {cond_atoms(sub)[:3]}): an EMPTY expression text - what is left of `items=[*]` or `attrs={{**}}` after the spread token is cut off - raises IndexError when the tag's values are compiled")
     chk.floor("S2b", n, 8)
     # every spread token has a container check
     chk.rule("S2c", "every token of TAG_SPREAD has a branch in extract_spread_token that raises unless the container type matches")
